@@ -277,7 +277,7 @@ def _dump_multiline_str(f: TextIO, key: str, value: str):
 @document_dump_one("PDB", ["atcoords", "atnums", "extra"], ["atffparams", "title", "bonds"])
 def dump_one(f: TextIO, data: IOData):
     """Do not edit this docstring. It will be overwritten."""
-    _dump_multiline_str(f, "TITLE", data.title or "Created with IOData")
+    _dump_multiline_str(f, "TITLE", "Created with IOData" if data.title is None else data.title)
     if "compound" in data.extra:
         _dump_multiline_str(f, "COMPND", data.extra["compound"])
     # Prepare for ATOM lines.
